@@ -552,6 +552,81 @@ fn scripted() -> Vec<Case> {
     v
 }
 
+/// E7: a label longer than 63 bytes cannot go onto the wire as it is (the daemon meets such labels in names it
+/// learned from the network: two labels that merge when a name is written again). Whatever the encoder does with
+/// it, the packet still parses, the crate's own decoder still reads it, and what stands in the label's place is
+/// the beginning of the label, whole characters only.
+pub fn overlong_label_case(rng: &mut Rng, l: &mut Local) {
+    l.evaluations += 1;
+    let pad = 50 + rng.usize(14);
+    let mut label = String::new();
+    for _ in 0..pad {
+        label.push(char::from(b'a' + rng.below(26) as u8));
+    }
+    while label.len() < 64 + rng.usize(20) {
+        label.push(match rng.below(4) {
+            0 => *rng.pick(&['\u{e9}', '\u{fc}']),
+            1 | 2 => *rng.pick(&['\u{65e5}', '\u{672c}', '\u{20ac}']),
+            _ => *rng.pick(&['\u{1f600}', '\u{10348}']),
+        });
+    }
+    let ty = wire::name("_t._udp.local");
+    let mut inst: Name = vec![label.as_bytes().to_vec()];
+    inst.extend(ty.clone());
+    let mut m = if rng.chance(1, 2) { Message::query() } else { Message::response() };
+    if m.is_query() {
+        m.questions.push(wire::question(&inst, wire::T_ANY));
+        if rng.chance(1, 2) {
+            m.questions.push(wire::question(&ty, wire::T_PTR));
+        }
+    } else {
+        m.answers.push(wire::ptr(&ty, 4500, &inst));
+        if rng.chance(1, 2) {
+            m.answers.push(wire::srv(&inst, 120, 80, &wire::name("host.local")));
+        }
+    }
+    let Some(packets) = facade::encode_with_crate(&m) else {
+        l.count("not_encodable", 1);
+        return;
+    };
+    l.act("E7");
+    let witness = || json!({"label": label, "label_bytes": label.len(), "packets": packets.iter().map(|p| wire::hex(&p[..p.len().min(300)])).collect::<Vec<_>>()});
+    for p in packets.iter() {
+        let pm = match wire::parse(p) {
+            Ok((pm, _)) => pm,
+            Err(e) => {
+                l.violate(Violation::new("E7", format!("E7/over-long-label/unparseable/{}", e.what), format!("a message with a label of {} bytes was encoded into a packet that does not parse: {e}", label.len())).with(witness()));
+                return;
+            }
+        };
+        let mut names: Vec<&Name> = pm.questions.iter().map(|q| &q.name).collect();
+        for r in pm.records() {
+            names.push(&r.name);
+            if let RData::Ptr(n) = &r.rdata {
+                names.push(n);
+            }
+        }
+        for n in names {
+            if n.len() != inst.len() {
+                continue;
+            }
+            let first = &n[0];
+            let ok = first.len() <= 63 && label.as_bytes().starts_with(first) && std::str::from_utf8(first).is_ok();
+            if !ok {
+                l.violate(
+                    Violation::new("E7", "E7/over-long-label/not-a-whole-character-prefix", format!("in place of a label of {} bytes the packet carries {} bytes that are not its beginning in whole characters: {}", label.len(), first.len(), wire::hex(first)))
+                        .with(witness()),
+                );
+                return;
+            }
+        }
+        if let Err(e) = codec::decode(p, "eth0", 2) {
+            l.violate(Violation::new("E7", "E7/over-long-label/own-decoder-rejects", format!("the crate's decoder rejects the packet its encoder made of a label of {} bytes: {e}", label.len())).with(witness()));
+            return;
+        }
+    }
+}
+
 pub fn run(report: &Report, tier: &Tier) {
     report.set_rule(
         "messages of questions and PTR/SRV/TXT/A/AAAA records in all sections built through the crate's encoder; classes: small, \
@@ -560,7 +635,7 @@ pub fn run(report: &Report, tier: &Tier) {
     );
     report.assume("the reference parser W is correct and shares no code with the crate");
     report.assume("E4 allowance: in a response, additionals after the first one that does not fit may be left out (adjudicated, DESIGN §12)");
-    for r in ["E1", "E2", "E3", "E4", "E5", "E6"] {
+    for r in ["E1", "E2", "E3", "E4", "E5", "E6", "E7"] {
         report.floor(r, if r == "E5" { 3 } else { 50 });
     }
     let mut l = Local::default();
@@ -582,5 +657,6 @@ pub fn run(report: &Report, tier: &Tier) {
             let c = gen_case(&mut rng);
             check_case(&c, l);
         }
+        overlong_label_case(&mut rng, l);
     });
 }
